@@ -27,12 +27,29 @@ def run(tier, replay):
         # wire surface: the same TLC cases through the real binary on loopback sockets (accept loop, pool, real transport)
         trace3 = S.serve(worlds, cases, sc, obs="full", stats=False, tag="w", wire=True)
         tv3 = S.judge("C02", "Trace_Static_c02", trace3, verdict, signature)
+        # Router leg: reserved names, built-in pages, unknown paths and the form-get endpoint x nine methods on the menu worlds
+        # plus a world holding its own copy of every asset.  C02 clauses go to the verdict (a file of a reserved name in the root
+        # is served like any file); the R.* clauses pin behaviour the properties leave free and are reported as notes only.
+        rtw, rtc, nrt, genrt = S.generate("router", 2, sc, tag="rt")
+        conf = []
+        trace4 = S.serve(rtw, rtc, sc, obs="full", stats=True, tag="rt")
+        S.judge("C02", "Trace_Static_router", trace4, verdict, signature, conformance=conf)
+        trace5 = S.serve(rtw, rtc, sc, obs="full", stats=False, tag="rtw", wire=True)
+        S.judge("C02", "Trace_Static_router", trace5, verdict, signature, conformance=conf)
+        n4, n5 = S.count_events(trace4), S.count_events(trace5)
+        seen = {}
+        for c in conf:
+            seen.setdefault(",".join(c["clauses"]), []).append(c)
+        for k, v in sorted(seen.items()):
+            vlib.log("NOTE spec-conformance beyond C02 (Router): %s x%d e.g. %s" % (k, len(v), __import__("json").dumps(v[0])))
         n1, n2 = S.count_events(trace), S.count_events(trace2)
         n3 = S.count_events(trace3)
         ev["coverage"] = {
             "states": mc.distinct + gen.distinct, "transitions": mc.generated + gen.generated,
-            "traces_validated_against_impl": n1["Serve"] + n2["Serve"] + n3["Serve"], "wire_requests": n3["Serve"],
-            "spec_cases_replayed": ncases, "random_world_requests": n2["Serve"],
+            "traces_validated_against_impl": n1["Serve"] + n2["Serve"] + n3["Serve"] + n4["Serve"] + n5["Serve"], "wire_requests": n3["Serve"] + n5["Serve"],
+            "spec_cases_replayed": ncases + nrt, "random_world_requests": n2["Serve"],
+            "router_requests": n4["Serve"] + n5["Serve"], "router_conformance_rejections": len(conf),
+            "router_conformance_clauses": sorted(seen),
             "fs_model_checks_against_os": n1["Stat"] + n2["Stat"], "worlds": n1["Mount"] + n2["Mount"],
             "samples": S.sample_events(trace, 3),
             "rule": "Gen_Static(c02): every path derived from the 3 menu worlds (each node, +/, +/nx, near-miss name, extra slash, "
